@@ -526,6 +526,20 @@ def _subst_ptr(n, name, base, off):
     return cnt
 
 
+_ONLY_BOOL = [False]
+
+
+def _is_boolean(e):
+    n = e
+    while n.get("kind") in ("ParenExpr", "ImplicitCastExpr"):
+        n = n["inner"][0]
+    if n.get("kind") == "BinaryOperator" and n.get("opcode") in ("<", "<=", ">", ">=", "==", "!=", "&&", "||"):
+        return True
+    if n.get("kind") == "UnaryOperator" and n.get("opcode") == "!":
+        return True
+    return False
+
+
 def _n4_block(stmts, locals_, ptr_locals):
     i = 0
     while i < len(stmts):
@@ -547,6 +561,8 @@ def _n4_def(stmts, i, t, rhs, locals_, ptr_locals):
         if isptr and pd is None:
             return
         if not is_pure(rhs) or t in var_refs(rhs):
+            return
+        if _ONLY_BOOL[0] and (isptr or not _is_boolean(rhs)):
             return
         ops_s = var_refs(rhs)
         ops_a = arrays_read(rhs) if not isptr else set()
@@ -914,6 +930,26 @@ def _rename_expr(body, pn, base):
             else:
                 rec(c)
     rec(body)
+
+
+def light(fn):
+    """the rewrites that keep the function's own statements (no inlining, loops as written): N1 switch, N6 post-increment,
+    N5 conditional assignment, N4 forward substitution.  Used by the range analysis so that a flag or a hoisted temporary
+    does not hide the relation between a test and the store it guards."""
+    holder = {"inner": [fn["body"]]}
+    n1_switch(holder)
+    _wrap_bodies(holder)
+    n6_postinc(holder)
+    n5_ternary(holder)
+    fn["body"] = holder["inner"][0]
+    sc, pt = local_vars(fn)
+    _ONLY_BOOL[0] = True          # only flags (comparison / logical values): the interpreter keeps its facts on variables
+    try:
+        _n4_block(fn["body"]["inner"], sc, pt)
+    finally:
+        _ONLY_BOOL[0] = False
+    n5_ternary({"inner": [fn["body"]]})
+    return fn
 
 
 def normalise_all(K, entry_points):
